@@ -119,7 +119,8 @@ impl Document {
         }
         for content in &self.after {
             let node = create_document_content_node(xot, content);
-            xot.append(child, node).unwrap();
+            // after the document element, not inside it
+            xot.append(document, node).unwrap();
         }
         document
     }
